@@ -41,6 +41,9 @@ def run(rep):
     rep.guard(c04.b3, rep, w)
     import c13
     rep.guard(c13.u2, rep, w)     # seq[a..b]: the bounds the operator's definition accepts
+    import c04_narrow
+    rep.guard(c04_narrow.b4, rep, w)   # a loop / jump operand is the distance the compiler measured: a limit test on a different quantity lets it wrap, and the loop jumps somewhere else
+    rep.guard(c04.b15, rep, w)    # `!(a != b)`: an operator is compiled by appending code, never by deleting what an earlier operator emitted (a stale offset deletes someone else's instruction)
 
 
 def arm_opcodes(w, f):
@@ -159,14 +162,25 @@ def e2(rep, w):
     r.check(ok, 'binary_op_impl: op(second popped, first popped)', 'binary_op_impl applies the operator with its operands swapped: a - b computes b - a', f.loc())
     f = w.require_fn(VM + 'build_range_impl', 'C05')
     # the validation (utils::validate_integer, directly or inside a helper that the engine has spliced in) passes its operand on: follow the two
-    # arguments of build_range back to the two pops through it
+    # arguments of build_range back to the two stack reads through it. The operands are read by two pops (the first one is the END operand) or
+    # left in place and read with peek(0) (END) / peek(1) (BEGIN).
     org = origins(f, extra_wrappers=('yarel::utils::validate_integer',))
     pops = pops_in_order(f)
+    reads = {}
+    if len(pops) == 2:
+        reads = {pops[0]: 'end', pops[1]: 'begin'}
+    else:
+        for bi, t in f.calls():
+            if callee_name(t) == VM + 'peek' and len(t['args']) == 2:
+                k = op_const(t['args'][1])
+                if k is not None and k.get('v') in (0, 1):
+                    reads[bi] = 'end' if k['v'] == 0 else 'begin'
     br = [(bi, t) for bi, t in f.calls() if callee_name(t) == VM + 'build_range']
-    ok = len(pops) == 2 and len(br) == 1
+    if sorted(reads.values()) != ['begin', 'end'] or len(br) != 1:
+        raise Broken('C05', 'anchor', 'build_range_impl: the two operand reads (two pops, or peek(0) and peek(1)) and the one build_range call were not found (%s)' % sorted(reads.values()))
 
-    def pop_sources(pl):
-        qs = [q for q in org.get(pl['l'], ()) if q[0][0] == 'call' and q[0][1] in pops] if pl is not None else []
+    def read_sources(pl):
+        qs = [q for q in org.get(pl['l'], ()) if q[0][0] == 'call' and q[0][1] in reads] if pl is not None else []
         roots = {q[0][1] for q in qs}
         if len(roots) > 1:
             # both validated values travel in one pair (a helper's `Ok((begin, end))`): the field read tells which
@@ -175,12 +189,26 @@ def e2(rep, w):
             if len(ks) == 1 and next(iter(ks)) in ('0', '1') and len(pairs) == 1:
                 p2 = op_place(pairs[0][int(next(iter(ks)))])
                 if p2 is not None:
-                    return {q[0][1] for q in org.get(p2['l'], ()) if q[0][0] == 'call' and q[0][1] in pops}
-        return roots
-    if ok:
-        a_begin, a_end = op_place(br[0][1]['args'][1]), op_place(br[0][1]['args'][2])
-        ok = pop_sources(a_begin) == {pops[1]} and pop_sources(a_end) == {pops[0]}
-    r.check(ok, 'build_range_impl: build_range(second popped, first popped)', 'a..b builds the range b..a', f.loc())
+                    return {reads[q[0][1]] for q in org.get(p2['l'], ()) if q[0][0] == 'call' and q[0][1] in reads}
+        return {reads[x] for x in roots}
+    a_begin, a_end = op_place(br[0][1]['args'][1]), op_place(br[0][1]['args'][2])
+    sb, se = read_sources(a_begin), read_sources(a_end)
+    if not sb or not se or len(sb) > 1 or len(se) > 1:
+        raise Broken('C05', 'anchor', 'build_range_impl: cannot follow the arguments of build_range back to the operand reads (%s, %s)' % (sorted(sb), sorted(se)))
+    r.check(sb == {'begin'} and se == {'end'}, 'build_range_impl: build_range(second popped, first popped)', 'a..b builds the range b..a', f.loc())
+    # when neither operand is an integer the error raised is the one for the END operand (the first one popped): the judging order is part of
+    # what a program observes (error class and message name that operand)
+    vi = {}
+    for bi, t in f.calls():
+        if callee_name(t) == 'yarel::utils::validate_integer' and t['args']:
+            src = read_sources(op_place(t['args'][0]))
+            if len(src) == 1:
+                vi[next(iter(src))] = bi
+    if sorted(vi) != ['begin', 'end']:
+        raise Broken('C05', 'anchor', 'build_range_impl: the two validations of the operands were not found in the function (or a helper spliced into it): the order in which they are judged cannot be read')
+    dom = f.dominators()
+    r.check(vi['end'] in dom.get(vi['begin'], ()), 'build_range_impl: the END operand is judged first', 'a..b with two unusable operands reports the error of the BEGIN operand; '
+            'the operands are judged in the order they leave the stack (END first), and the error a program catches names that operand', f.loc())
     f = w.require_fn(VM + 'add_impl', 'C05')
     org = origins(f)
     pops = pops_in_order(f)
